@@ -120,6 +120,14 @@ def parse_event(line, root):
 TMP = re.compile(r"/\.kismet_temp/([^/]+)$")
 
 
+def unesc(s):
+    return re.sub(r"%([0-9a-f]{2})", lambda m: chr(int(m.group(1), 16)), s)
+
+
+def esc_tok(s):
+    return "".join(("%%%02x" % ord(c)) if (ord(c) <= 0x20 or c == "%" or ord(c) == 0x7f or c == "," or c == "|") else c for c in s)
+
+
 def oracle_of(events):
     """What the model needs to know about the environment of this step."""
     times = [e["t"] for e in events if e["call"] == "clock"]
@@ -130,7 +138,7 @@ def oracle_of(events):
             orders.append(cur)
         elif e["call"] == "readdir" and cur is not None:
             if e["name"] != "<end>":
-                cur.append(e["name"])
+                cur.append(esc_tok(unesc(e["name"])))
     fresh = []
     for e in events:
         if e["call"] == "create" and "EXCL" in e["flags"]:
@@ -148,11 +156,12 @@ def significant(e):
     return True
 
 
-def canon(events, delta_ns=120 * 10**9):
+def canon(events, delta_ns=120 * 10**9, with_seq=False):
     """Canonical comparison form: list of tuples.  Drops reads/readdirs/SEEK_CUR
     probes and the fstat pair std::io::copy issues; merges copy_file_range runs;
     classifies timestamps relative to the last clock reading / last fstat."""
     out = []
+    seqs = []
     last_clock = None
     last_mtime = {}
     evs = [e for e in events]
@@ -188,7 +197,7 @@ def canon(events, delta_ns=120 * 10**9):
                 if evs[j]["err"]:
                     res = evs[j]["err"]
                 j += 1
-            out.append(("copy", tp(e["src"]), tp(e["path"]), res)); i = j; continue
+            out.append(("copy", tp(e["src"]), tp(e["path"]), res)); seqs.append(e.get("seq")); i = j; continue
         if c in ("open",):
             out.append(("open", tp(e["path"]), e["flags"].split("|")[0], r))
         elif c == "create":
@@ -221,7 +230,11 @@ def canon(events, delta_ns=120 * 10**9):
             out.append(("mkdir", tp(e["path"]), r))
         else:
             out.append((c, tp(e.get("path", "")), r))
+        while len(seqs) < len(out):
+            seqs.append(e.get("seq"))
         i += 1
+    if with_seq:
+        return out, seqs
     return out
 
 
